@@ -77,6 +77,17 @@ def gen_config(rng):
     model = cm.gen_model_spec(rng, dim, slow_share=0.06 if dim < 3 else 1.0)
     model["nugget"] = rng.choice([0.0, 0.0, 0.0, 0.1, 0.5])
     kind = rng.choice(KINDS)
+    latlon = rng.random() < 0.07
+    if latlon:
+        # geographic coordinates: model dim 3 (Yadrenko), field dim 2 (lat, lon)
+        dim = 2
+        model = cm.gen_model_spec(rng, 3, name=rng.choice(["Gaussian", "Exponential",
+                                                          "Spherical"]),
+                                  nugget=rng.choice([0.0, 0.0, 0.1]))
+        gsc = rng.choice([1.0, 57.29577951308232])
+        model.update(latlon=True, geo_scale=gsc, anis=[1.0, 1.0], angles=[0.0, 0.0, 0.0],
+                     len_scale=rng.choice([0.3, 0.7, 1.0]) * gsc)
+        kind = rng.choice(["Simple", "Ordinary", "Detrended"])
     kr = {"kind": kind, "exact": rng.random() < 0.35,
           "pseudo_inv": rng.random() < 0.8, "pseudo_inv_type": rng.choice(["pinv", "pinvh"]),
           "cond_err": "nugget", "mean": None, "trend": None, "normalizer": None,
@@ -95,13 +106,25 @@ def gen_config(rng):
         kr["normalizer"] = "YeoJohnson"
     ncond = rng.randint(2 if kind in ("Simple", "Ordinary", "Detrended") else dim + 2, 6)
     pos, val = gen_cond(rng, dim, ncond)
+    if latlon:
+        pos = [[round(v * 20.0, 2) for v in pos[0]], [round(v * 50.0, 2) for v in pos[1]]]
     cfg = {
+        "latlon": latlon,
         "n_ops": rng.randint(3, 14), "dim": dim, "model": model, "krige": kr,
         "cond": {"pos": pos, "val": val},
         "gen": {"mode_no": rng.choice([8, 16, 32, 48])},
         "seed": rng.choice(SEEDS), "axes": cm.pool_axes(rng, dim),
         "twin": True, "faults": rng.random() >= 0.4,
     }
+    if not latlon and rng.random() < 0.15:
+        # projected coordinates (UTM like): neighbouring targets are "equal" for np.allclose
+        off = [rng.choice([4.5e5, 5.6e6, 1.2e5]) for _ in range(dim)]
+        cfg["axes"] = [[round(v + o, 2) for v in a] for a, o in zip(cfg["axes"], off)]
+        cfg["cond"]["pos"] = [[round(v + o, 2) for v in row] for row, o in zip(pos, off)]
+        cfg["offset"] = off
+    if latlon:
+        cfg["axes"] = [sorted({round(rng.uniform(-70, 70), 2) for _ in range(8)})[:4],
+                       sorted({round(rng.uniform(-170, 170), 2) for _ in range(8)})[:4]]
     if cm.is_slow(model):
         cfg["n_ops"] = min(cfg["n_ops"], 7)
         cfg["twin"] = model["nugget"] > 0
@@ -180,6 +203,12 @@ class Machine:
         self.cfg = config
         self.ctx = ctx
         self.dim = config["dim"]
+        self.latlon = bool(config.get("latlon"))
+        self.offset = config.get("offset")
+        # coordinates of 1e6 cost ~1e-10 absolute in distances and phases on both sides, and
+        # BLAS may round the isometrisation of n points differently for different n
+        self.tol = 1e-9 if not self.offset else 1e-6
+        self.mdim = config["model"]["dim"]
         self.spec = cm.spec_copy({k: config[k] for k in ("model", "krige", "cond", "gen",
                                                          "seed")})
         self.axes = [list(a) for a in config["axes"]]
@@ -217,6 +246,11 @@ class Machine:
             if what == "pos_values":
                 lo = 2 if kr["kind"] in ("Simple", "Ordinary", "Detrended") else self.dim + 2
                 pos, val = gen_cond(rng, self.dim, rng.randint(lo, 6))
+                if self.latlon:
+                    pos = [[round(v * 20.0, 2) for v in pos[0]],
+                           [round(v * 50.0, 2) for v in pos[1]]]
+                if self.offset:
+                    pos = [[round(v + o, 2) for v in row] for row, o in zip(pos, self.offset)]
                 return {"op": "set_condition", "what": what, "pos": pos, "val": val}
             if what == "cond_err":
                 if kr["exact"]:
@@ -229,7 +263,7 @@ class Machine:
                     "ext": [round(rng.uniform(-1, 2), 3) for _ in range(n)]}
         if kind == "inplace_model":
             params = ["var", "len_scale", "nugget"]
-            if self.dim > 1:
+            if self.dim > 1 and not self.latlon:
                 params += ["anis", "angles"]
             params += ["opt:" + o for o in sorted(m["opt"])]
             p = rng.choice(params)
@@ -247,8 +281,13 @@ class Machine:
                 v = rng.choice(cm.opt_grid(m["cls"], self.dim)[p[4:]])
             return {"op": "inplace_model", "param": p, "value": v}
         if kind == "assign_model":
-            new = cm.gen_model_spec(rng, self.dim, nugget=m["nugget"],
-                                    slow_share=0.03 if not cm.is_slow(m) else 1.0)
+            new = cm.gen_model_spec(rng, self.mdim, nugget=m["nugget"],
+                                    slow_share=0.03 if not cm.is_slow(m) else 1.0,
+                                    name=rng.choice(["Gaussian", "Exponential", "Spherical"])
+                                    if self.latlon else None)
+            if self.latlon:
+                new.update(latlon=True, geo_scale=m["geo_scale"], anis=[1.0, 1.0],
+                           angles=[0.0, 0.0, 0.0], len_scale=m["len_scale"])
             return {"op": "assign_model", "model": new}
         if kind == "assign_post":
             what = rng.choice(["mean", "trend", "normalizer"])
@@ -281,16 +320,26 @@ class Machine:
         op = {"op": "gen", "seed": seed, "store": rng.choice(STORES),
               "krige_store": rng.choice(KSTORES), "post": rng.random() < 0.6,
               "chunk": rng.choice([None, None, 1, 2, 5])}
-        lays = ["unstructured", "unstructured", "structured", "at_cond"]
+        lays = ["unstructured", "unstructured", "structured", "at_cond", "buffer"]
+        if self.spec["krige"]["kind"] == "Simple":
+            lays.append("far")
         if self.last is not None:
             lays += ["reuse", "reuse", "same_again"]
         lay = rng.choice(lays)
         op["layout"] = lay
         if lay == "unstructured":
             op["idx"] = rng.sample(range(self.npool), rng.randint(1, self.npool))
+        elif lay == "buffer":
+            # the caller keeps ONE float64 (dim, n) array and overwrites it in place between
+            # calls (a moving window): the library must not rely on a view of it
+            op["idx"] = rng.sample(range(self.npool), min(3, self.npool))
         elif lay == "structured":
             op["sel"] = [sorted(rng.sample(range(len(a)), rng.randint(1, len(a))))
                          for a in self.axes]
+        elif lay == "far":
+            op["post"] = False
+            op["n_far"] = rng.randint(1, 4)
+            op["dir"] = [rng.choice([-1.0, 1.0, 0.5]) for _ in range(self.dim)]
         return op
 
     def _gen_fault(self, rng):
@@ -324,10 +373,12 @@ class Machine:
 
     def _positions(self, lay, op):
         """-> (pos argument, mesh_type, points array (dim,n), shape, new 'last')"""
-        if lay == "unstructured":
+        if lay in ("unstructured", "buffer"):
             idx = [i for i in op["idx"] if 0 <= i < self.npool]
             if not idx:
                 raise Inapplicable("no points")
+            if lay == "buffer":
+                idx = (idx * 3)[:3]
             pts = self.pool[:, idx]
             return pts.copy(), "unstructured", pts, (len(idx),), ("u", idx)
         if lay == "structured":
@@ -340,6 +391,17 @@ class Machine:
         if lay == "at_cond":
             pts = np.array(self.spec["cond"]["pos"], dtype=np.double)
             return pts.copy(), "unstructured", pts, (pts.shape[1],), ("c", pts.tolist())
+        if lay == "far":
+            # >= 40 (isotropic) length scales away from every conditioning point
+            m = self.spec["model"]
+            scale = m["len_scale"] * max([1.0] + list(m["anis"]))
+            d = np.array((list(op.get("dir", [1.0])) + [1.0] * self.dim)[: self.dim])
+            d = d / np.linalg.norm(d)
+            n = max(1, int(op.get("n_far", 1)))
+            base = np.max(np.abs(np.array(self.spec["cond"]["pos"]))) + 40.0 * scale
+            pts = np.array([[round(float((base + 3.0 * scale * k) * d[i]), 2)
+                             for k in range(n)] for i in range(self.dim)])
+            return pts.copy(), "unstructured", pts, (n,), ("c", pts.tolist())
         raise HarnessError(lay)
 
     def _last_points(self):
@@ -390,6 +452,13 @@ class Machine:
             try:
                 if pos is None:
                     res = s.cs(**kw)
+                elif lay == "buffer":
+                    if getattr(s, "buf", None) is None:
+                        s.buf = np.ascontiguousarray(pos, dtype=np.double).copy()
+                    else:
+                        s.buf[...] = pos  # in place: same array object as in earlier calls
+                        self.ctx.probe("caller_buffer_reused")
+                    res = s.cs(s.buf, mesh_type=mesh_type, **kw)
                 else:
                     p = [a.copy() for a in pos] if isinstance(pos, list) else pos.copy()
                     res = s.cs(p, mesh_type=mesh_type, **kw)
@@ -417,7 +486,7 @@ class Machine:
         self.ctx.note("gen", res)
         if res.shape != tuple(shape):
             raise Violation("C07.shape", got=list(res.shape), want=list(shape))
-        if self.twin is not None and not close(res, results[1], rtol=1e-9):
+        if self.twin is not None and not close(res, results[1], rtol=self.tol):
             raise Violation("C07.twin_equal", layout=lay, nugget=nug,
                             maxdiff=maxdiff(res, results[1]))
         # ---- fresh-object refinement
@@ -430,7 +499,7 @@ class Machine:
         self.ctx.probe("fresh_objects_built")
         cs = self.sut.cs
         if not nug:
-            if not close(res, fres, rtol=1e-9):
+            if not close(res, fres, rtol=self.tol):
                 raise Violation("C07.fresh_equal", layout=lay, maxdiff=maxdiff(res, fres),
                                 stale=self._stale_parts(cs, fresh, op))
         else:
@@ -440,6 +509,9 @@ class Machine:
         # ---- defining formula (nugget free): K + sqrt(V/var) U, then mean/norm/trend
         if not nug:
             self._check_formula(res, pts, shape, mesh_type, post, fpos)
+        # ---- far from the data simple kriging returns mean + unconditional field
+        if lay == "far" and not nug and not post:
+            self._check_far(res, pts)
         # ---- data are honoured
         if lay == "at_cond" or (lay in ("reuse", "same_again") and last[0] == "c"
                                 and last[1] == np.array(self.spec["cond"]["pos"],
@@ -513,7 +585,7 @@ class Machine:
                  (cs.krige, knames[1], ksave[1], fresh.krige, "krige_var")]
         for obj, name, saved, fobj, fname in pairs:
             if saved and name in obj.field_names and fname in fobj.field_names:
-                if not close(obj[name], fobj[fname], rtol=1e-9):
+                if not close(obj[name], fobj[fname], rtol=self.tol):
                     out.append(fname)
                 self.ctx.probe("stored_part_checked")
         return out
@@ -544,8 +616,22 @@ class Machine:
             if trend is not None:
                 val = val + (trend(*coords) if callable(trend) else trend)
             raw = val
-        if not close(res, raw, rtol=1e-8):
+        if not close(res, raw, rtol=max(1e-8, self.tol)):
             raise Violation("C07.formula", maxdiff=maxdiff(res, raw), post=post)
+
+    def _check_far(self, res, pts):
+        spec = self.spec
+        if self.latlon or spec["krige"]["kind"] != "Simple" or spec["model"]["cls"] not in (
+                "Gaussian", "Exponential", "Spherical", "Cubic", "Circular", "HyperSpherical",
+                "SuperSpherical", "Linear", "TPLSimple"):
+            return  # compact support or (super-)exponential decay only
+        m0 = cm.spec_copy(spec["model"])
+        u = gs.SRF(cm.build_model(m0), seed=spec["seed"], mode_no=spec["gen"]["mode_no"])
+        U = np.array(u(pts.copy(), store=False), dtype=np.double)
+        self.ctx.probe("far_field.checked")
+        # raw (not post processed) field: kriging part vanishes, scaling factor -> 1
+        if not close(res, U, rtol=1e-8):
+            raise Violation("C07.far_field", maxdiff=maxdiff(res, U), model=spec["model"]["cls"])
 
     def _check_honours(self, res, post):
         spec = self.spec
@@ -680,8 +766,9 @@ class Machine:
 
     def _op_assign_model(self, op):
         new = op["model"]
-        if new["dim"] != self.dim or (new["nugget"] > 0) != (self.spec["model"]["nugget"] > 0):
-            raise Inapplicable("dim / nugget side")
+        if new["dim"] != self.mdim or (new["nugget"] > 0) != (
+                self.spec["model"]["nugget"] > 0) or bool(new.get("latlon")) != self.latlon:
+            raise Inapplicable("dim / nugget side / flavour")
         for s in self.sides():
             s.cs.model = cm.build_model(new)
         self.spec["model"] = read_model(self.sut.cs.model)
